@@ -23,7 +23,7 @@ RULE = (
     "by (tree, perturbation tuple)."
 )
 ASSUMPTIONS = ["which of several simultaneous errors is reported may depend on order: only accept/reject and successful results are compared"]
-MIN_MONITORS = {"config-result": 20000, "order-oracle": 2000, "determinism-compare": 15000, "read-files-oracle": 700, "directory-predicate": 800, "rglob-shuffles": 10000, "duplicate-files": 2000}
+MIN_MONITORS = {"config-result": 20000, "order-oracle": 2000, "determinism-compare": 15000, "read-files-oracle": 700, "directory-predicate": 800, "rglob-shuffles": 10000, "duplicate-files": 2000, "symlinked-definitions": 600}
 THOROUGH_MIN_SCALE = 8
 
 SPELLINGS = ["abs-path", "abs-str-slash", "relative", "relative-path-obj", "dotdot", "symlink"]
@@ -240,6 +240,8 @@ def run_shard(ctx):
     pydsdl = import_pydsdl()
     for _ in range(ctx.share(p["n_dup"])):
         duplicate_case(ctx, pydsdl, rng.randrange(1 << 40), ctx.tmp)
+    for _ in range(ctx.share(p["n_dup"]) // 4):
+        symlink_case(ctx, pydsdl, rng.randrange(1 << 40), ctx.tmp)
     ctx.notes["hash_seeds_per_shard"] = len(outs)
     shutil.rmtree(work, ignore_errors=True)
 
@@ -298,7 +300,83 @@ def duplicate_case(ctx, pydsdl, seed, work):
     ctx.case(("dup", how, same_text, short, ver, t1, t2), True, classes=["duplicate-" + how])
 
 
+def symlink_case(ctx, pydsdl, seed, work, prefix="C10"):
+    """
+    Definition files that are symbolic links (to another definition of the same root, to a file outside the root, with a
+    relative or absolute link target): a link is a definition file of the directory it sits in like any other entry, so
+    there is one composite per entry, named by the ENTRY (name, version, port-ID from the link's own file name, namespace
+    from its own directory), holding the text the link leads to.  Also used by C15 (prefix) for the identity clauses.
+    """
+    from pathlib import Path
+
+    rng = random.Random(seed)
+    base = (work / "lnk").resolve()
+    shutil.rmtree(base, ignore_errors=True)
+    rootname = rng.choice(["lnkns", "vendor"])
+    root = base / rng.choice(["", "ws"]) / rootname
+    (root / "sub").mkdir(parents=True)
+    outside = base / "outside"
+    outside.mkdir()
+    real = {root / "Real.1.0.dsdl": "uint8 a\n@sealed\n", root / "sub" / "Deep.2.1.dsdl": "uint16 d\nuint8 e\n@sealed\n",
+            outside / "Ext.1.0.dsdl": "uint32 x\n@sealed\n", outside / "notes.txt": "bool n\n@sealed\n"}
+    for f, t in real.items():
+        f.write_text(t)
+    pool = [
+        (root / "Alias.1.1.dsdl", root / "Real.1.0.dsdl"), (root / "sub" / "Twin.3.0.dsdl", root / "Real.1.0.dsdl"),
+        (root / "7100.Ported.1.0.dsdl", root / "sub" / "Deep.2.1.dsdl"), (root / "Outside.1.0.dsdl", outside / "Ext.1.0.dsdl"),
+        (root / "sub" / "Txt.0.1.dsdl", outside / "notes.txt"), (root / "Legacy.1.0.uavcan", root / "sub" / "Deep.2.1.dsdl"),
+    ]
+    links = rng.sample(pool, rng.choice([1, 1, 2, 3]))
+    for ln, tgt in links:
+        ln.symlink_to(tgt if rng.random() < 0.5 else os.path.relpath(str(tgt), str(ln.parent)))
+    entries = {f: t for f, t in real.items() if str(f).startswith(str(root))}
+    entries.update({ln: real[tgt] for ln, tgt in links})
+
+    def ident(f):
+        rel = f.relative_to(root.parent)
+        comps = f.name.split(".")[:-1]
+        port = int(comps[0]) if len(comps) == 4 else None
+        short, ma, mi = comps[-3:]
+        return (".".join(list(rel.parent.parts) + [short]), int(ma), int(mi), port, str(f), [ln.split()[-1] for ln in entries[f].splitlines() if not ln.startswith("@")])
+
+    def got_ident(t):
+        p = Path(t.source_file_path)
+        return (t.full_name, t.version.major, t.version.minor, t.fixed_port_id, str(p.parent.resolve() / p.name), [a.name for a in t.attributes])
+
+    case = {"symlinks": seed, "links": {str(ln.relative_to(base)): str(tgt.relative_to(base)) for ln, tgt in links}}
+    want_all = sorted(ident(f) for f in entries)
+    try:
+        ctx.mon("symlinked-definitions")
+        try:
+            out = pydsdl.read_namespace(root, [], allow_unregulated_fixed_port_id=True)
+            got = sorted(got_ident(t) for t in out)
+            if got != want_all:
+                ctx.violation(prefix + "/symlinked-definition", "read_namespace over a directory with the links %r returned %r, expected one composite per entry: %r" % (
+                    case["links"], [g[:4] + (os.path.basename(g[4]),) for g in got], [w[:4] + (os.path.basename(w[4]),) for w in want_all]), case)
+        except pydsdl.InvalidDefinitionError as ex:
+            ctx.violation(prefix + "/symlinked-definition", "read_namespace over a directory with the links %r was rejected: %r" % (case["links"], ex), case)
+        except Exception as ex:  # noqa
+            ctx.violation(prefix + "/foreign-exception", "read_namespace over a directory with the links %r: %r escaped" % (case["links"], ex), case)
+        for ln, _tgt in links:
+            ctx.mon("symlinked-definitions")
+            try:
+                d, _tr = pydsdl.read_files([ln], [root], allow_unregulated_fixed_port_id=True)
+                if [got_ident(t) for t in d] != [ident(ln)]:
+                    ctx.violation(prefix + "/symlinked-definition", "read_files(%s -> %s) returned %r, expected %r" % (
+                        ln.name, case["links"][str(ln.relative_to(base))], [got_ident(t)[:4] for t in d], ident(ln)[:4]), case)
+            except pydsdl.InvalidDefinitionError as ex:
+                ctx.violation(prefix + "/symlinked-definition", "read_files(%s) was rejected: %r" % (ln.name, ex), case)
+            except Exception as ex:  # noqa
+                ctx.violation(prefix + "/foreign-exception", "read_files(%s): %r escaped" % (ln.name, ex), case)
+    finally:
+        shutil.rmtree(base, ignore_errors=True)
+    ctx.case(("lnk", tuple(sorted(case["links"].items()))), True, classes=["symlinked-definition-files"])
+
+
 def replay(ctx, case):
+    if "symlinks" in case:
+        symlink_case(ctx, import_pydsdl(), case["symlinks"], ctx.tmp)
+        return
     if "duplicate" in case:
         duplicate_case(ctx, import_pydsdl(), case["duplicate"], ctx.tmp)
         return
